@@ -40,6 +40,7 @@ def REQUIRED(tier):  # noqa: N802
     return {"run_pairs": 60, "pairs[binpacking]": 30, "pairs[tsp]": 8,
             "pairs[ttp]": 6, "pairs[qap]": 6, "pairs[instgen]": 1,
             "pairs[control_raw]": 1, "from_log_checks": 20,
+            "binpacking_runs_on_custom_instances": 12,
             "pairs[control_surrogate]": 0 if tier == "quick" else 1}
 
 
@@ -118,8 +119,10 @@ def judge_binpacking(ctx, setup, kv, secs, live, case):
     from moptipyapps.binpacking2d.packing import Packing
     from moptipyapps.binpacking2d.packing_result import from_single_log
     from vlib.monitors.packing_contracts import objective_classes
-    inst = Instance.from_resource(setup["instance"])
-    desc = wb.desc_of(inst, "shipped")
+    custom = setup.get("custom_desc")
+    inst = Instance.from_resource(setup["instance"]) if custom is None \
+        else wb.make_real(custom)
+    desc = wb.desc_of(inst, "shipped") if custom is None else custom
     nums = first_line_numbers(secs.get("RESULT_Y", []))
     rows = [nums[i:i + 6] for i in range(0, len(nums), 6)]
     k = max(r[1] for r in rows) if rows else 0
@@ -166,6 +169,15 @@ def judge_binpacking(ctx, setup, kv, secs, live, case):
         d, f"{algo}_{inst.name}_{kv['SETUP.p.randSeed(hex)']}.txt")
     shutil.copyfile(setup["log"], path)
     setup = dict(setup, log=path)
+    if custom is not None:
+        # a user's own instance: the log is parsed with the instance given
+        pk = Packing.from_log(setup["log"], inst)
+        ctx.count("from_log_with_given_instance")
+        if wb.rows_of(pk) != rows or pk.n_bins != k or \
+                pk.dtype != inst.dtype or pk.instance is not inst:
+            ctx.violation("from_log-packing-differs", "Packing.from_log("
+                          "file, instance) != logged packing", case)
+        return
     pk = Packing.from_log(setup["log"])
     if wb.rows_of(pk) != rows or pk.n_bins != k or pk.dtype != inst.dtype \
             or pk.instance is not inst:
@@ -452,6 +464,16 @@ TSP_SYM = ("burma14", "ulysses16", "gr17", "gr21", "ulysses22", "gr24",
            "fri26", "bays29")
 
 
+CUSTOM_BP = (
+    {"name": "cust_portrait", "W": 10, "H": 20, "cls": "custom",
+     "items": [[14, 3, 2], [4, 17, 1], [5, 5, 3], [10, 2, 2], [3, 12, 2]]},
+    {"name": "cust_landscape", "W": 24, "H": 9, "cls": "custom",
+     "items": [[7, 20, 2], [9, 9, 1], [4, 4, 4], [2, 11, 2], [24, 1, 1]]},
+    {"name": "cust_square", "W": 12, "H": 12, "cls": "custom",
+     "items": [[12, 5, 2], [7, 7, 2], [5, 12, 1], [3, 3, 5]]},
+)
+
+
 def comb_shard(ctx, count):
     from moptipy.algorithms.so.rls import RLS
     from moptipy.api.execution import Execution
@@ -496,6 +518,20 @@ def comb_shard(ctx, count):
                     alg = "rls"     # the FEA's table needs ub-lb+1 entries
             fn = getattr(bpe, alg)
             from moptipyapps.binpacking2d.packing import Packing
+            if it % 5 in (3, 4):
+                # the same bundled setups on a user's own instance (portrait
+                # bin, items that fit in one orientation only)
+                cd = dict(CUSTOM_BP[int(rng.choice([0, 0, 0, 1, 2]))])
+                ctx.count("binpacking_runs_on_custom_instances")
+                setup = {"name": f"binpacking2d.experiment.{alg}",
+                         "instance": cd["name"], "objective": okey,
+                         "encoding": enc.__name__, "seed": seed,
+                         "custom_desc": cd,
+                         "make_y": lambda cd=cd: Packing(wb.make_real(cd))}
+                run_pair(ctx, "binpacking", setup,
+                         lambda cd=cd: fn(wb.make_real(cd), enc, objs[okey]),
+                         budget, seed)
+                continue
             setup = {"name": f"binpacking2d.experiment.{alg}",
                      "instance": name, "objective": okey,
                      "encoding": enc.__name__, "seed": seed,
